@@ -278,6 +278,8 @@ type Transport struct {
 	OnClose   func(net.Conn)
 	conns     map[string]*conn
 	lock      sync.RWMutex
+	// dials: the servers a connection is being made to (see getConn)
+	dials map[string]chan struct{}
 }
 
 func (trans *Transport) getConn(ctx context.Context) (conn *conn, err error) {
@@ -289,14 +291,42 @@ func (trans *Transport) getConn(ctx context.Context) (conn *conn, err error) {
 		return
 	}
 	trans.lock.RUnlock()
+	// one dial per server at a time: a call that finds one under way waits for it (no longer
+	// than its own context lasts) and looks into the pool again, instead of dialling too
+	var turn chan struct{}
+	for turn == nil {
+		trans.lock.Lock()
+		if conn = trans.conns[key]; conn != nil {
+			trans.lock.Unlock()
+			return
+		}
+		wait, busy := trans.dials[key]
+		if !busy {
+			if trans.dials == nil {
+				trans.dials = make(map[string]chan struct{})
+			}
+			turn = make(chan struct{})
+			trans.dials[key] = turn
+		}
+		trans.lock.Unlock()
+		if busy {
+			select {
+			case <-wait:
+			case <-ctx.Done():
+				return nil, ctx.Err()
+			}
+		}
+	}
 	// the dial (and OnConnect) runs without the pool lock: while it lasts, the calls of the
 	// connections that exist must not wait for it, least of all beyond their own time-out
 	fresh, err := newConn(ctx, trans.onConnect, trans.onClose)
+	trans.lock.Lock()
+	defer trans.lock.Unlock()
+	delete(trans.dials, key)
+	close(turn)
 	if err != nil {
 		return nil, err
 	}
-	trans.lock.Lock()
-	defer trans.lock.Unlock()
 	if conn = trans.conns[key]; conn != nil {
 		// another call has connected meanwhile: its connection serves, this one is dropped
 		go fresh.Close(core.ErrClosed)
